@@ -189,6 +189,41 @@ func injectLoops(repo, rel string, items []*Item, warn func(string)) (map[string
 			p := fset.Position(f.Name.End()).Offset
 			edits = append(edits, edit{off: p, end: p, text: "; import verifspec \"" + specPkg + "\""})
 		}
+		// imports named by the contract file and used by the injected text
+		var injText strings.Builder
+		for _, e := range edits {
+			injText.WriteString(e.text)
+		}
+		seenImp := map[string]bool{}
+		for _, it := range want {
+			for _, im := range it.Imports {
+				fl := strings.Fields(im)
+				var name, path string
+				if len(fl) == 1 {
+					path = strings.Trim(fl[0], `"`)
+					name = path[strings.LastIndex(path, "/")+1:]
+				} else if len(fl) == 2 {
+					name, path = fl[0], strings.Trim(fl[1], `"`)
+				} else {
+					continue
+				}
+				if seenImp[name] || !usesPkgIdent(injText.String(), name) {
+					continue
+				}
+				already := false
+				for _, fi := range f.Imports {
+					if strings.Trim(fi.Path.Value, `"`) == path {
+						already = true
+					}
+				}
+				if already {
+					continue
+				}
+				seenImp[name] = true
+				p := fset.Position(f.Name.End()).Offset
+				edits = append(edits, edit{off: p, end: p, text: fmt.Sprintf("; import %s %q", name, path)})
+			}
+		}
 		sort.Slice(edits, func(i, j int) bool { return edits[i].off > edits[j].off })
 		b := append([]byte(nil), src...)
 		for _, e := range edits {
